@@ -38,7 +38,7 @@ OPS = [
 def fn_units():
     """function path -> (file, [units in which it is verified], first line, last line)"""
     out = {}
-    for u in ['conn', 'request', 'client', 'response', 'router', 'headers']:
+    for u in ['conn', 'request', 'client', 'response', 'router', 'headers', 'server']:
         g = UnitGen(SRC, os.path.join(VERIF, 'units')).generate(u)
         for fid, info in g.fns.items():
             if info['mode'] != 'verify':
